@@ -46,8 +46,8 @@ func c15FreeRun(c *Ctx) error {
 	}
 	buildTree(nodes, 7700+uint32(c.Seed), nil, false)
 	var stop int32
-	var reads, bad int64
-	var firstBad atomic.Value
+	var reads, bad, none int64
+	var firstBad, firstNone atomic.Value
 	var wg sync.WaitGroup
 	for r := 0; r < 4; r++ {
 		wg.Add(1)
@@ -58,6 +58,10 @@ func c15FreeRun(c *Ctx) error {
 				if r%2 == 0 {
 					h := ci.Svc.Headers.GetTip()
 					if h == nil {
+						// the genesis row is a longest-chain header at every instant: "no tip" is never a correct answer
+						if atomic.AddInt64(&none, 1) == 1 {
+							firstNone.Store("Headers.GetTip() returned nil")
+						}
 						continue
 					}
 					state, hash = string(h.State), h.Hash.String()
@@ -70,6 +74,9 @@ func c15FreeRun(c *Ctx) error {
 						} `json:"header"`
 					}
 					if hr.Status != 200 || json.Unmarshal(hr.Body, &t) != nil {
+						if atomic.AddInt64(&none, 1) == 1 {
+							firstNone.Store(fmt.Sprintf("GET /api/v1/chain/tip/longest -> %d %s", hr.Status, c16Short(hr.Body)))
+						}
 						continue
 					}
 					state, hash = t.State, t.Header.Hash
@@ -116,6 +123,12 @@ func c15FreeRun(c *Ctx) error {
 				What:     fmt.Sprintf("with readers running, %d of %d submissions were not stored; the table holds %d rows (%d expected), %d of them ORPHAN: not the result of any sequential ingestion", notStored, steps, len(rows), steps+1, orphans),
 				Expected: "every submission stored, the same table as without readers", Observed: firstNot, Signature: "c15-free-submission-fails-under-readers"})
 		}
+	}
+	if none > 0 {
+		fn, _ := firstNone.Load().(string)
+		c.R.Fail(lib.Failure{Case: "free-running tip readers", Ops: []string{fmt.Sprintf("# c15 free run: %d submissions alternately extending two branches from genesis (each overtakes the other), 4 readers calling the tip query without pause", steps)},
+			What:     fmt.Sprintf("a reader was told that there is no tip (%d times, next to %d answered reads) although a longest-chain header exists at every instant: the reader saw a state no sequential ingestion produces", none, reads),
+			Expected: "every tip query is answered with a longest-chain header", Observed: fn, Signature: "c15-free-reader-no-tip"})
 	}
 	if bad > 0 {
 		fb, _ := firstBad.Load().(string)
